@@ -431,16 +431,22 @@ Section Unpack.
       end in
     (* c.from_dict(value): a class whose own Config has a discriminator is only a dispatcher - its own hooks are
        not emitted, the chosen variant's from_dict runs the variant's (possibly inherited) hooks *)
+    (* ... and the variant it selects may itself be such a dispatcher (nested class-level discriminators): its
+       from_dict dispatches again over its own subclasses.  Structural in the nesting depth, bounded by |E|. *)
     let call_dc (c: nat) : D :=
-      match c_disc (cls E c) with
-      | Some wf => dispatch tag wf (subclasses E c) plain
-      | None => plain c
-      end in
+      (fix fd (fuel: nat) (c: nat) {struct fuel} : D :=
+         match fuel with
+         | 0 => plain c
+         | S f => match c_disc (cls E c) with
+                  | Some wf => dispatch tag wf (subclasses E c) (fd f)
+                  | None => plain c
+                  end
+         end) (S (length E)) c in
     fix on_ty (t: ty) : D :=
       match t with
       | TInt => match w with WInt => dret VInt | _ => dfail end
       | TDc c => call_dc c
-      | TDisc p wf sup => dispatch tag wf (disc_variants p sup) plain
+      | TDisc p wf sup => dispatch tag wf (disc_variants p sup) call_dc
       | TList t' => match w with
                     | WList l => fun n => match dseq (map (fun x => unpack x t') l) n with
                                           | (Some vs, tr, n1) => (Some (VList vs), tr, n1)
